@@ -825,7 +825,7 @@ Proof. intros H ->. exact H. Qed.
 Lemma do_send_WI (w : world) (o : oentry) :
   WI w -> (o_topic o = TDelete -> del_ready (w_recs w) (o_run o)) -> entry_at (w_hist w) o -> WI (do_send w o).
 Proof.
-  intros [H1 H2 H3 H4 H5 H6 H7 H8 H9 H10] Hd (x & Hx & Ex & _). unfold do_send. constructor; cbn; try assumption.
+  intros [H1 H2 H3 H4 H5 H6 H7 H8 H9 H10 H11] Hd (x & Hx & Ex & _). unfold do_send. constructor; cbn; try assumption.
   - intros e He Ht. apply in_app_or in He as [He|[<-|[]]]; [apply H4; assumption|]. cbn in Ht. apply Hd, Ht.
   - intros p idx e d Hin. destruct (H6 p idx e d Hin) as [A B]. split; [apply in_or_app; left; exact A|exact B].
   - intros e He. apply in_app_or in He as [He|[<-|[]]]; [apply H9, He|].
@@ -837,7 +837,7 @@ Lemma del_outbox_WI (w : world) (id : N) :
   WI w -> (forall r, nth_error (w_hist w) (N.to_nat id - 1) = Some r -> published w r) ->
   WI (set_outbox w (filter (fun o => negb (N.eqb (o_id o) id)) (w_outbox w))).
 Proof.
-  intros [H1 H2 H3 H4 H5 H6 H7 H8 H9 H10] Hp. constructor; cbn; try assumption.
+  intros [H1 H2 H3 H4 H5 H6 H7 H8 H9 H10 H11] Hp. constructor; cbn; try assumption.
   - intros o Ho Ht. apply filter_In in Ho as [Ho _]. apply H5; assumption.
   - intros o Ho. apply filter_In in Ho as [Ho _]. apply H8, Ho.
   - intros k r Hk. destruct (H10 k r Hk) as [A|A]; [|right; exact A].
@@ -950,16 +950,17 @@ Qed.
 (* ---------- trigger.go, callback.go, the controller API ---------- *)
 Lemma set_nrun_WI (w : world) : WI w -> WI (set_nrun w (w_nrun w + 1)%N).
 Proof.
-  intros [H1 H2 H3 H4 H5 H6 H7 H8 H9 H10]. constructor; cbn; try assumption.
+  intros [H1 H2 H3 H4 H5 H6 H7 H8 H9 H10 H11]. constructor; cbn; try assumption.
   intros r Hr. specialize (H2 r Hr). lia.
 Qed.
 
 Lemma trigger_store_pre (w : world) (fid : N) (st0 seed : Z) :
   WI w -> is_valid g st0 = true ->
+  (forall l, latest_fid w fid = Some l -> rs_finished (r_state l) = true) ->
   store_pre (set_nrun w (w_nrun w + 1)%N)
             (bump (mkRecord 0%N fid (w_nrun w) RSInitiated st0 (OVal seed []) (w_now w) (w_now w) 0 0%N st0)).
 Proof.
-  intros HW Hv.
+  intros HW Hv Hlatest.
   set (r' := bump (mkRecord 0%N fid (w_nrun w) RSInitiated st0 (OVal seed []) (w_now w) (w_now w) 0 0%N st0)).
   set (w' := set_nrun w (w_nrun w + 1)%N).
   assert (Hnone : lookup_run w' (r_run r') = None).
@@ -970,29 +971,38 @@ Proof.
   - unfold store_ok. rewrite stamp_state, F3, F6, F7. cbn. rewrite Z.eqb_refl. unfold g in Hv. rewrite Hv. reflexivity.
   - destruct F8 as [-> | ->]; cbn; lia.
   - discriminate.
-  - intros _. cbn. lia.
+  - intros _. split; [cbn; lia|]. intros l Hl. apply Hlatest. exact Hl.
 Qed.
 
 Lemma api_trigger_t (fid : N) (start seed : Z) : triple Inv (api_trigger c fid start seed) (fun _ s => Inv s).
 Proof.
   unfold api_trigger. destruct (if start =? 0 then default_start (ec_graph c) else Some start) as [st0|]; [|apply t_fail; auto].
   apply t_if; intros Hv; [apply t_fail; auto|]. apply Bool.negb_false_iff in Hv.
-  eapply (t_seq _ _ _ (fun _ s => Inv s)).
+  eapply (t_seq _ _ _ (fun r s => Inv s /\ forall x, r = Ok x -> x = latest_fid (o_w s) fid)).
   { eapply t_conseq; [|apply (p_latest_t (fun _ => True) fid (stable_const True))|].
     - intros s HI. split; [exact HI|exact I].
-    - intros r s (HI & _). exact HI. }
-  2:{ intros e s HI. exact HI. }
-  intros lastr. apply t_if; intros _; [apply t_fail; auto|].
-  eapply (t_seq _ _ _ (fun r s => Inv s /\ r = Ok (o_w s))).
-  { apply t_get_w. intros s HI. auto. }
-  2:{ intros e s [_ H]. discriminate. }
-  intros w. apply t_pre with (P' := fun s => w = o_w s /\ Inv s).
-  { intros s [HI H]. inversion H; subst. auto. }
-  eapply (t_seq _ _ _ (fun _ s => Inv s /\ o_w s = set_nrun w (w_nrun w + 1)%N /\ WI w)).
-  { apply t_put_w. intros s s' (Hw & (HW & Hn & Htr)) E1 E2 E3. subst w. split; [|split; [exact E1|exact HW]].
+    - intros r s (HI & _ & H). split; [exact HI|exact H]. }
+  2:{ intros e s [HI _]. exact HI. }
+  intros lastr. apply t_if; intros Hg; [apply t_fail; intros s [HI _]; exact HI|].
+  set (K := fun w => forall l, latest_fid w fid = Some l -> rs_finished (r_state l) = true).
+  assert (HK : stable K).
+  { intros w w' (E1 & _) H l Hl. apply H. unfold latest_fid in *. now rewrite <- E1. }
+  eapply (t_seq _ _ _ (fun r s => Inv s /\ K (o_w s) /\ r = Ok (o_w s))).
+  { apply t_get_w. intros s [HI Hl]. split; [exact HI|split; [|reflexivity]].
+    intros l El. pose proof (Hl lastr eq_refl) as E0. rewrite El in E0. subst lastr.
+    destruct HI as (HW & _).
+    assert (Hin : In l (w_recs (o_w s))).
+    { unfold latest_fid in El. apply last_opt_in in El. apply filter_In in El. apply El. }
+    destruct (wi_rec c _ HW l Hin) as (_ & _ & _ & Hu).
+    destruct (r_state l); cbn in Hg; try discriminate; try reflexivity. contradiction. }
+  2:{ intros e s (_ & _ & H). discriminate. }
+  intros w. apply t_pre with (P' := fun s => w = o_w s /\ Inv s /\ K (o_w s)).
+  { intros s (HI & HKs & H). inversion H; subst. auto. }
+  eapply (t_seq _ _ _ (fun _ s => Inv s /\ o_w s = set_nrun w (w_nrun w + 1)%N /\ WI w /\ K w)).
+  { apply t_put_w. intros s s' (Hw & (HW & Hn & Htr) & HKs) E1 E2 E3. subst w. split; [|split; [exact E1|split; [exact HW|exact HKs]]].
     split; [rewrite E1; apply set_nrun_WI, HW|split; [rewrite E2; exact Hn|rewrite E3; exact Htr]]. }
   2:{ intros e s [HI _]. exact HI. }
-  intros _. eapply t_pre; [|apply p_store_t]. intros s (HI & E & HW). split; [exact HI|]. rewrite E. apply trigger_store_pre; assumption.
+  intros _. eapply t_pre; [|apply p_store_t]. intros s (HI & E & HW & HKw). split; [exact HI|]. rewrite E. apply trigger_store_pre; assumption.
 Qed.
 
 Lemma last_opt_filter_in {A} (f : A -> bool) (l : list A) (x : A) : last_opt (filter f l) = Some x -> In x l.
@@ -1412,7 +1422,7 @@ Lemma WI_procs (w w' : world) :
   w_recs w' = w_recs w -> w_nrun w' = w_nrun w -> w_now w' = w_now w -> w_log w' = w_log w -> w_outbox w' = w_outbox w ->
   (forall x, In x (w_procs w') -> In x (w_procs w)) -> w_hist w' = w_hist w -> w_noid w' = w_noid w -> WI w -> WI w'.
 Proof.
-  intros E1 E2 E3 E4 E5 Hsub E7 E8 [H1 H2 H3 H4 H5 H6 H7 H8 H9 H10].
+  intros E1 E2 E3 E4 E5 Hsub E7 E8 [H1 H2 H3 H4 H5 H6 H7 H8 H9 H10 H11].
   constructor; unfold published in *; rewrite ?E1, ?E2, ?E3, ?E4, ?E5, ?E7, ?E8; try assumption.
   intros p idx e d Hin. apply (H6 p idx e d), Hsub, Hin.
 Qed.
@@ -1426,7 +1436,7 @@ Qed.
 Lemma put_pstate_WI (w : world) (inst : Z) (u : eunit) (ps : pstate) :
   WI w -> (forall idx e d, ps = PLag idx e d -> ev_ok w u e) -> WI (put_pstate w (inst, u) ps).
 Proof.
-  intros [H1 H2 H3 H4 H5 H6 H7 H8 H9 H10] Hps. unfold put_pstate. constructor; cbn; try assumption.
+  intros [H1 H2 H3 H4 H5 H6 H7 H8 H9 H10 H11] Hps. unfold put_pstate. constructor; cbn; try assumption.
   intros p idx e d [Hx|Hx].
   - inversion Hx; subst. cbn. apply (Hps idx e d eq_refl).
   - apply filter_In in Hx as [Hx _]. apply (H6 p idx e d Hx).
@@ -1452,7 +1462,7 @@ Proof.
     destruct ui; [|exact B]. clear -B. induction B as [|x l Hx Hl IH]; cbn; [constructor|].
     constructor; [|exact IH]. destruct x; try exact Hx; reflexivity.
   - (* clock advance *)
-    split; [|constructor]. destruct HW as [H1 H2 H3 H4 H5 H6 H7 H8 H9 H10]. constructor; cbn; try assumption.
+    split; [|constructor]. destruct HW as [H1 H2 H3 H4 H5 H6 H7 H8 H9 H10 H11]. constructor; cbn; try assumption.
     intros r Hr. destruct (H3 r Hr) as (A & B & C & D). repeat split; try assumption. lia.
   - (* a process step *)
     set (ps := get_pstate w (inst, u)).
@@ -1475,7 +1485,7 @@ Proof.
   - split; [|constructor]. eapply WI_frame; try exact HW; reflexivity.
   - (* a duplicated delivery *)
     destruct (nth_error (w_log w) idx) as [e|] eqn:E; cbn [fst snd]; (split; [|constructor]); [|exact HW].
-    apply nth_error_In in E. destruct HW as [H1 H2 H3 H4 H5 H6 H7 H8 H9 H10]. constructor; cbn; try assumption.
+    apply nth_error_In in E. destruct HW as [H1 H2 H3 H4 H5 H6 H7 H8 H9 H10 H11]. constructor; cbn; try assumption.
     + intros e' He' Ht. apply in_app_or in He' as [He'|[<-|[]]]; [apply H4; assumption|]. cbn in *. apply (H4 e E Ht).
     + intros p i' e' d' Hin. destruct (H6 p i' e' d' Hin) as [A B]. split; [apply in_or_app; left; exact A|exact B].
     + intros e' He'. apply in_app_or in He' as [He'|[<-|[]]]; [apply H9, He'|]. destruct (H9 e E) as (r & Hr & Er). exists r. split; [exact Hr|exact Er].
